@@ -76,7 +76,9 @@ PROPS["C03"] = dict(
           "mark-used/lock/unlock (right, wrong)/passphrase change/new account/imported xpub account (second seed, optional schema override)/rename/import key/import script/"
           "custom scope/restart, over regtest/testnet/mainnet and seeds of 16-64 bytes incl. seeds where the legacy hardened rule differs from BIP32. Every returned address is "
           "compared with an independent BIP32 derivation; after EVERY step EVERY issued address is looked up again and its private-key accessor must agree with the oracle key "
-          "and the lock state. Non-trivial = >= 3 addresses on >= 2 branches/scopes and one of restart, lock-issue-unlock, extend, imported account."),
+          "and the lock state; address objects handed out by DeriveFromKeyPath while locked are kept until the next restart and checked the same way; the account cache may be dropped "
+          "(InvalidateAccountCache, as the wallet does after a rolled-back recovery batch) at any step; an extension may cover both branches of an account in one transaction. "
+          "Non-trivial = >= 3 addresses on >= 2 branches/scopes and one of restart, lock-issue-unlock, extend, imported account."),
     assumptions=_MGR_ASSUME,
     units=[dict(name="addresses", run="^TestC03Addresses$", quick=1500, thorough=3000, shards_quick=2, shards_thorough=16, timeout=1500)],
 )
@@ -101,7 +103,7 @@ PROPS["C08"] = dict(
           "issuing transaction followed by a committed issue, or rename/mark-used between lookups. Wallet-level unit: a funded wallet performs 2-10 of NewAddress, NewChangeAddress, "
           "CreateSimpleTx (dry run and signed), FundPsbt, ImportAccountDryRun and ImportAccount (BIP84 vpub from a second seed); after each the running wallet's and a freshly opened "
           "manager's answers (account list, names, key counts, last addresses of every account of the default scopes) must be equal, and a rolled-back or refused operation must leave "
-          "all of them unchanged."),
+          "all of them unchanged. The manager machine also drops account caches (InvalidateAccountCache) and extends both branches of an account in one transaction."),
     assumptions=_MGR_ASSUME + ["rolled-back transactions contain address-issuing operations and account creations (what dry runs and failed commits of real callers contain); "
                                "addresses produced only inside rolled-back transactions are excluded from lookups (cache residue of never-issued addresses is outside the statement)"],
     units=[dict(name="restart", run="^TestC08MemoryEqualsRestart$", quick=400, thorough=1500, shards_quick=2, shards_thorough=16, timeout=1500),
@@ -117,7 +119,9 @@ PROPS["C07"] = dict(
           ">=252 outputs or leftover within 2 dust thresholds of the zero-change boundary; or an insufficiency (justified or not) within 2x required fee of the boundary. "
           "Distinct = fingerprint of the rendered case. Wallet-level unit: a complete wallet funded with coins of every type and many sizes creates signed transactions through "
           "Wallet.CreateSimpleTx (scope nil or one of four, 8 fee rates, largest/random selection, amounts leaving little or no change); inputs are valued from the harness ledger, the real signed "
-          "virtual size is measured, and conservation, requested outputs (as a multiset: the wallet randomises the change position), lower and upper fee bound and the dust rule are checked."),
+          "virtual size is measured, and conservation, requested outputs (as a multiset: the wallet randomises the change position), lower and upper fee bound and the dust rule are checked; a quarter of the requests are sized 0-3000 sat below the most the coins can pay largest-first, and an "
+          "insufficient-funds answer is compared with the ledger's eligible coins (one-sided: unjustified only if a largest-first prefix, resp. all coins that pay for themselves, cover "
+          "outputs plus the fee of the worst-case estimate)."),
     assumptions=["requested outputs pass txrules.CheckOutput at DefaultRelayFeePerKb as wallet.sendOutputs / FundPsbt enforce (non-dust, OP_RETURN any value >= 0)",
                  "compressed keys only (author.go BUGS: uncompressed P2PKH out of scope); P2SH coins are P2SH-P2WPKH, P2TR coins are BIP86 key-spend",
                  "input sources behave like wallet.makeInputSource / constantInputSource (re-implemented in the harness because they are unexported); coin values >= 1",
@@ -208,7 +212,8 @@ PROPS["C16"] = dict(
           "paying/spending transaction recorded in its block, CalculateBalance(0,1,6) and ListUnspent equal the harness ledger, next index above the highest used one per scope/branch, "
           "birthday block below F, and (unlocked) the private key of every recovered address equals the oracle's. Second unit: the exported BranchRecoveryState driven with the "
           "expandScopeHorizons protocol and generated INVALID child indices against the model 'the W valid indices after the highest found one are watched'. "
-          "Non-trivial = >= 2 scopes/branches used, a jump of >= 2 indices and a spend of a recovered output; resp. an invalid child inside the window."),
+          "Half of the chains longer than one 2000-block recovery batch pay, in every block of a 21-block band around the end of the first batch, the address at the far end of one "
+          "branch's look-ahead window. Non-trivial = >= 2 scopes/branches used, a jump of >= 2 indices and a spend of a recovered output; resp. an invalid child inside the window."),
     assumptions=_WALLET_ASSUME + ["only the default account of the four default scopes is used (what recovery scans)", "invalid BIP32 children cannot be produced with real keys; they are covered at the BranchRecoveryState level only",
                                  "payments occur only in blocks whose timestamp is >= the wallet's creation time; block timestamps are monotone"],
     units=[dict(name="recovery", run="^TestC16Recovery$", quick=200, thorough=800, shards_quick=2, shards_thorough=16, timeout=3000),
@@ -281,7 +286,7 @@ PROPS["C20"] = dict(
           "re-offered transaction, restart). Snapshot (balance 0/1, spendable set, unconfirmed hashes, leases) before each attempt: error returned => identical snapshot afterwards and the "
           "transaction unknown; accepted / already-in-mempool => recorded exactly once, inputs no longer spendable, balances equal the harness ledger; after every resynchronisation the "
           "backend's call log must show every still-unconfirmed transaction offered again, each after its unconfirmed parents (bounded wait of 20 s on the call log only), a transaction refused "
-          "on re-broadcast and everything spending it forgotten, balances equal to the ledger. Non-trivial = a failing attempt while other unconfirmed transactions existed, or a re-broadcast after restart."),
+          "on re-broadcast and everything spending it forgotten, balances equal to the ledger; an explicit rescan may have a second rescan job queued behind it which the backend may refuse. Non-trivial = a failing attempt while other unconfirmed transactions existed, or a re-broadcast after restart."),
     assumptions=_WALLET_ASSUME + ["for already-known / already-confirmed answers the statement is silent about the store: only internal consistency is required",
                                  "the re-broadcast runs in a goroutine the wallet spawns; the harness waits on the backend call log (20 s bound that only matters when offers are missing)"],
     units=[dict(name="broadcast", run="^TestC20Broadcast$", quick=600, thorough=2500, shards_quick=2, shards_thorough=16, timeout=1500)],
